@@ -161,6 +161,10 @@ def run_case(ctx, k, rng):
                 ok = ok and float(vi) == v
                 info["int"] = vi; info["int_dtypes"] = [da, db]
                 ctx.note("int-form-cases")
+            if A.size and B.size and rng.random() < 0.5:
+                vx = call(ctx, vforms.with_extra_columns(rng, A), vforms.with_extra_columns(rng, B) if rng.random() < 0.7 else B)
+                ok = ok and float(vx) == v
+                info["extra_columns"] = vx
             if A.size and B.size:
                 (fa, na), (fb, nb) = vforms.relayout(rng, A), vforms.relayout(rng, B)
                 vf = call(ctx, fa, fb)
